@@ -359,7 +359,7 @@ def run(ctx):
     maxleaves = ctx.pick(3, 4)
     ctx.rule = ('parameter types: every union-tree shape with 1..%d leaves (+ random shapes to 6 leaves), every placement of field '
                 'annotations from {a,b,c,default,root} on every node incl. the root (duplicates excluded, exhaustive up to a cap per '
-                'shape), leaves over unit/nat/annotated pair/option/list-of-or; per type: list_entrypoints vs model, every full value '
+                'shape), leaves over unit/nat/annotated pair/option/list-of-or, mixed and uniform (all-unit enumerations); per type: list_entrypoints vs model, every full value '
                 '-> to_parameters -> from_parameters, every listed entrypoint x argument -> full value vs model wrap -> back; '
                 'non-trivial = at least one named entrypoint besides the root' % maxleaves)
     i = 0
@@ -372,13 +372,17 @@ def run(ctx):
                     continue
                 lt = {p: LEAF_TYPES[(k + i) % len(LEAF_TYPES)] for k, p in enumerate(leaves)}
                 judge(ctx, shape, ann, lt)
+                if i % 3 == 0:
+                    # uniform unions: every leaf of the same type — all unit (an enumeration), all nat, ...
+                    ctx.count('uniform_unions')
+                    judge(ctx, shape, ann, {p: LEAF_TYPES[0 if i % 2 else (i // 6) % len(LEAF_TYPES)] for p in leaves})
     for _ in range(ctx.pick(300, 20000) // ctx.nshards):
         shape = rng.choice(shapes(rng.choice([4, 5, 6])))
         leaves = [p for p, s in nodes_of(shape) if s == 'L']
         ann = next(placements(rng, shape, 1), None)
         if ann is None:
             continue
-        lt_ = {p: rng.choice(LEAF_TYPES) for p in leaves}
+        lt_ = {p: rng.choice(LEAF_TYPES) for p in leaves} if rng.random() < 0.8 else {p: LEAF_TYPES[0] for p in leaves}
         judge(ctx, shape, ann, lt_)
         ctx.remember(judge, ctx, shape, ann, lt_)
     judge_corpus(ctx)
